@@ -199,12 +199,28 @@ def check_property(pid, tier, seed, only=None, verbose=True):
                     row['verdict'] = 'inconclusive'
                     row['why'] = 'reachability twin not refuted (%s): vacuous or unreachable' % tw.get('verdict')
             for sample in ob.get('samples', []):
-                rep = run_concrete(ob, [repr(x) for x in sample])
+                sargs = [repr(x) for x in sample]
+                rep = run_concrete(ob, sargs)
                 nvalid += 1
+                if rep.get('outcome') == 'violates':
+                    # a concrete run of the harness on the REAL code with the real struct/time/io (and the parts only checked concretely,
+                    # e.g. CRCs) fails: that is a replayed violation in its own right, whatever the solver said under the models
+                    row['counterexample'] = 'declared sample %r' % (sample,)
+                    row['replay'] = rep
+                    ent = match_known(known, pid, ob, sargs, {}, rep)
+                    path = write_replay(pid, ob, sargs, {}, {'cex_text': 'declared concrete sample (solver verdict under the models: confirmed)'}, rep)
+                    if ent is not None:
+                        known_hits.append((ent, ob, path))
+                        row['verdict'] = 'known-finding'
+                    else:
+                        violations.append((ob, path, rep))
+                        row['verdict'] = 'VIOLATION'
+                    v = row['verdict']
+                    break
                 if rep.get('outcome') != 'holds':
                     v = 'inconclusive'
                     row['verdict'] = 'inconclusive'
-                    row['why'] = 'harness disagrees with itself on concrete sample %r under the real struct/time: %s' % (sample, rep)
+                    row['why'] = 'harness could not be run on concrete sample %r under the real struct/time: %s' % (sample, rep)
         if v == 'refuted':
             cex = res.get('cex') or {}
             if res.get('replay'):   # py engines replay themselves and report
